@@ -14,7 +14,7 @@ CLAIMED = {
  'C03': dict(
     level='other', ref='DESIGN.md 4 C03',
     technique='ast CFG rules on OP_CHECK_MULTISIG: success-edge consumption of the matched key (must-pass-through), exact verdict condition by linear-atom equivalence, operand-order agreement across VM / compiler / decompiler; index-space typing of used-set idioms; the single-signature rules C02.R2-R4 re-evaluated as obligations',
-    text='Decides the structural clauses of the threshold claim: on the success edge of the inner check the matched key leaves the candidate set before the next signature (so two signatures by one key cannot both count), confirmed signatures are a set grown only on that edge, true is put exactly when all m are confirmed, (flags, m, n) order agrees between VM, compiler and decompiler, and the inner check gets the rewound allowed-flags tape. Order independence rests on a cryptographic fact and is not decided.',
+    text='Decides the structural clauses of the threshold claim: on the success edge of the inner check the matched key leaves the candidate set before the next signature (so two signatures by one key cannot both count), confirmed signatures are a set grown only on that edge and only on the strength of the item popped after the inner check of the same iteration (not a memo or cache entry), true is put exactly when all m are confirmed, (flags, m, n) order agrees between VM, compiler and decompiler, and the inner check gets the rewound allowed-flags tape. Order independence rests on a cryptographic fact and is not decided.',
     note='Trusted: CPython ast, tsa analyser.'),
  'C04': dict(
     level='other', ref='DESIGN.md 4 C04',
@@ -23,18 +23,18 @@ CLAIMED = {
     note='Trusted: CPython ast, tsa analyser; hash ops assumed binding.'),
  'C05': dict(
     level='other', ref='DESIGN.md 4 C05',
-    technique='ast CFG edge-dominance on OP_TAPROOT (eval only through the root-match edge, evaluated item is the hashed script, key path fed root + operand flags + plugins) and template typing of the non-native taproot lock; purity rule for Script.commitment(); dependency obligations on DEF binding (C06.R6) and point aggregation (C17.R4)',
-    text='Decides exactness of the two spend paths structurally: the committed script runs only on the edge where the recomputed point equals the popped root and it is the very item that was hashed; a mismatch puts false without evaluating; the key path checks under the root with the operand flags and the parent plugins; the non-native lock types with its eval operand authenticated against the trusted root and is stack-compatible with both witnesses. The algebraic identity of the root and native/non-native verdict equivalence are not decided.',
+    technique='ast CFG edge-dominance on OP_TAPROOT (eval only through the root-match edge, evaluated item is the hashed script, key path fed root + operand flags + plugins) and template typing of the non-native taproot lock; purity rule for Script.commitment(); dependency obligations on DEF binding (C06.R6) and point aggregation (C17.R4); def-use (value-kind) rule that every hand-made builder signature signs the item its VM signing run left on the stack; sigflags / sigfields plumbing of the taproot witness builders',
+    text='Decides exactness of the two spend paths structurally: the committed script runs only on the edge where the recomputed point equals the popped root and it is the very item that was hashed; a mismatch puts false without evaluating; the key path checks under the root with the operand flags and the parent plugins; the non-native lock types with its eval operand authenticated against the trusted root and is stack-compatible with both witnesses; the key-spend builder signs exactly the message the VM builds from the sigfields of the caller (never one it assembles itself) and carries its flag byte. The algebraic identity of the root and native/non-native verdict equivalence are not decided.',
     note='Trusted: CPython ast, tsa analyser; hash/point commitments assumed binding.'),
  'C06': dict(
     level='other', ref='DESIGN.md 4 C06',
     technique='ast typestate invariant over all sub-tape handlers (return-flag scoping), alias/copy classification of EVAL sub-tape fields, cross-table agreement query (VM table vs docs.md vs language_spec.md vs compiler/decompiler case labels), and an abstract counting interpretation of every handler over path sets (depth, low-water mark, operand stream) compared per operand sample with a hand-transcribed table of the documented stack effect and operand layout',
-    text='Decides the clauses of C06 whose truth is in the shape of the code: RETURN scoping as an inductive invariant over every handler that runs a sub-tape (IF/IF_ELSE/TRY_EXCEPT transparent, CALL consumes, EVAL consumes unless eval_return, nothing may raise while the flag is pending), EVAL isolation (definitions and flags are copies), agreement of the five opcode tables, DEF binding unconditionally / CALL running the named binding, and - for every op whose effect is a function of its tape operands - that every non-raising path needs and changes the stack depth exactly as documented for each operand sample including the boundary values 0/1/128/255, and reads exactly the documented operand fields. Which value an op computes (operand orders, numeric results, value-level boundary behaviour) quantifies over runtime values and is not decided.',
+    text='Decides the clauses of C06 whose truth is in the shape of the code: RETURN scoping as an inductive invariant over every handler that runs a sub-tape (IF/IF_ELSE/TRY_EXCEPT transparent, CALL consumes, EVAL consumes unless eval_return, nothing may raise while the flag is pending), EVAL isolation (definitions and flags are copies), agreement of the five opcode tables, DEF binding unconditionally and giving the body the very definition table of the defining tape (late binding) / CALL running the named binding with the pointer of the definition tape saved, rewound and restored, and - for every op whose effect is a function of its tape operands - that every non-raising path needs and changes the stack depth exactly as documented for each operand sample including the boundary values 0/1/128/255, and reads exactly the documented operand fields. Which value an op computes (operand orders, numeric results, value-level boundary behaviour) quantifies over runtime values and is not decided.',
     note='Trusted: CPython ast, tsa analyser. Assumes handlers are reached only via run_tape dispatch or the handler->handler calls in the call graph.'),
  'C07': dict(
     level='other', ref='DESIGN.md 4 C07',
     technique='ast who-may-call / guard-exactness / taint analysis: storage-access inventory, dominator + linear-atom truth tables for the limit guards, read-size kind classification, call-graph cycles through run_tape with depth-guard dominance, loop-variant recognition, value-taint from script-chosen integers to allocation sinks',
-    text='Decides necessary structural conditions of C07 on every run: all stack growth goes through the checked put and its three guards are exact (so the maxlen deque can never silently drop an item), Tape bounds are exact, no read size can be negative, tape.pointer is written only by its owners, recursion through run_tape is depth-accounted (four known findings), sequential drivers carry the call count of the tape that ran last into the next one, every loop has a recognised termination variant, and no script-chosen integer reaches an allocation sink unbounded. Memory of big-integer arithmetic and non-limit Python exceptions are not decided.',
+    text='Decides necessary structural conditions of C07 on every run: all stack growth goes through the checked put and its three guards are exact (so the maxlen deque can never silently drop an item), Tape bounds are exact, no read size can be negative, tape.pointer is written only by its owners, recursion through run_tape is depth-accounted (four known findings), sequential drivers carry the call count of the tape that ran last into the next one, every loop has a recognised termination variant (for the counter-bounded OP_LOOP: guard first, counter strictly increased on every back edge, and start value and strictness of the guard admitting at most `limit` iterations), and no script-chosen integer reaches an allocation sink unbounded. Memory of big-integer arithmetic and non-limit Python exceptions are not decided.',
     note='Trusted: CPython ast, tsa analyser, deque/bytes semantics. Known findings (uncounted nesting of IF/IF_ELSE/TRY_EXCEPT/LOOP) listed in known_findings.json.'),
  'C08': dict(
     level='proof', ref='DESIGN.md 4 C08',
@@ -48,12 +48,12 @@ CLAIMED = {
     note='Trusted: CPython ast, tsa analyser. Flag keys assumed str/int. Known finding: SET_FLAG/UNSET_FLAG use bytes keys (listed in known_findings.json).'),
  'C11': dict(
     level='other', ref='DESIGN.md 4 C11',
-    technique='ast exhaustiveness query over the compiler dispatch, abstract interpretation of each encoder helper to derive its emitted operand shape and sibling cross-check against the VM handler tape-read shape, terminator-advance uniformity rule over the six block parsers, interval partition of the PUSH size guards',
-    text='Decides the structural clauses of C11: every VM op has exactly one compiler case, the operand shape each encoder helper emits on all non-raising paths equals what the VM handler reads, block parsers advance by one over their own terminators (the END_IF defect, now fixed), the PUSH size guards partition [1,65535] exactly with matching prefix widths and opcodes, and statement parts are concatenated in source order. Tokenizer behaviour on arbitrary text, value-prefix parsing, macros, variables and comptime are not decided.',
+    technique='ast exhaustiveness query over the compiler dispatch, abstract interpretation of each encoder helper to derive its emitted operand shape and sibling cross-check against the VM handler tape-read shape, terminator-advance uniformity rule over the six block parsers, interval partition of the PUSH size guards, int-typed def-use rule that numbers parsed from the source reach their encoder unreduced (no mask / modulo / shift / clamp / slice)',
+    text='Decides the structural clauses of C11: every VM op has exactly one compiler case, the operand shape each encoder helper emits on all non-raising paths equals what the VM handler reads, block parsers advance by one over their own terminators (the END_IF defect, now fixed), the PUSH size guards partition [1,65535] exactly with matching prefix widths and opcodes, statement parts are concatenated in source order, and a number written in the source is never reduced before or after encoding (an operand that does not fit is refused, not wrapped). Tokenizer behaviour on arbitrary text, value-prefix parsing, macros, variables and comptime are not decided.',
     note='Trusted: CPython ast, tsa analyser. Encoder paths whose payload is provably still a str are treated as rejected (b"".join raises).'),
  'C12': dict(
     level='other', ref='DESIGN.md 4 C12',
-    technique='ast termination argument (read-size kind classification per match arm, loop-progress and well-founded-recursion rules) plus sibling cross-check decompiler arms vs VM handler tape-read shapes and formatter/domain classification against the compiler helpers',
+    technique='ast termination argument (read-size kind classification per match arm, loop-progress and well-founded-recursion rules) plus sibling cross-check decompiler arms vs VM handler tape-read shapes and formatter/domain classification against the compiler helpers (accepted decimal range derived from the guards of the helper by interval facts along its non-raising paths)',
     text='Termination of decompile_script is decided as a structural proof on the current source: every read size in every arm (and in the generated soft-fork handler) is a non-negative constant or unsigned decode, every loop iteration consumes at least one byte, recursion is only on bytes read from the same tape, and Tape.read is bounded - hence the pointer strictly increases below len(script) and recursion is well founded. The round trip is decided only structurally: each arm reads exactly the operand shape its VM handler reads, operands reach the listing through injective formatters, and the printed domain is accepted by the compiler helper. Byte equality for every program is not decided.',
     note='Trusted: CPython ast, tsa analyser. Out of scope: decompiler handlers registered by third parties. Known finding: DIV_INT/MOD_INT lossy print.'),
  'C13': dict(
@@ -73,7 +73,7 @@ CLAIMED = {
     note='Trusted: CPython ast, tsa analyser.'),
  'C16': dict(
     level='other', ref='DESIGN.md 4 C16',
-    technique='ast decision-table extraction: CFG path conditions of the handler canonicalised to linear atoms and compared with the documented formula by exhaustive truth table; base;verify shape rule; (builders: template boolean domain)',
+    technique='ast decision-table extraction: CFG path conditions of the handler canonicalised to linear atoms and compared with the documented formula by exhaustive truth table; base;verify shape rule; (builders: template boolean domain); dependency obligation that no code stores under a str key of the run cache (the supplied timestamp is never replaced)',
     text='The property touches its values only through comparisons, so the orderings are finite: the if/elif/else formula of OP_CHECK_TIMESTAMP and OP_CHECK_EPOCH is extracted from the CFG (locals substituted, comparisons canonicalised to L >= 0 atoms) and shown equal to the documented formula on every assignment of the atoms - exhaustive over orderings including every boundary; the constraint decode is checked unsigned and the _VERIFY forms are base;verify. The three timestamp lock builders are decided by composing these tables over the embedded templates (C16.R4).',
     note='Trusted: CPython ast, tsa analyser. Assumes the presence/type guards before the comparison only reject malformed inputs, and that push d<ts> and the unsigned decode agree for ts >= 0.'),
  'C17': dict(
@@ -84,11 +84,11 @@ CLAIMED = {
  'C19': dict(
     level='other', ref='DESIGN.md 4 C19',
     technique='interprocedural write-effect summaries (fixpoint over the call graph) used for an iteration/mutation conflict rule, a who-may-write rule for the module-level registries with call-graph unreachability from run/compile entry points, guard dominance for set semantics, a mutable-default escape rule, alias tracking through constructor keywords and method calls, and a shared-entry-object rule for registry initialisers',
-    text='Decides the history channels of C19 on the source: no collection is structurally mutated while iterated (directly or via callees), registries are written only by the add_/remove_/reset_ API and no run/compile entry point or handler can reach a writer, the API has insert-if-absent / delete-if-present shape, no mutable default that a caller can take is mutated through forwarding, and the embedder dictionaries are only read or copied. Set semantics over arbitrary histories (e.g. interfaces keyed by __name__) is not decided.',
+    text='Decides the history channels of C19 on the source: no collection is structurally mutated while iterated (directly or via callees), registries are written only by the add_/remove_/reset_ API and no run/compile entry point or handler can reach a writer, the API has insert-if-absent / delete-if-present shape and compares entries by equality on both sides (never by identity), no mutable default that a caller can take is mutated through forwarding, and the embedder dictionaries are only read or copied. Set semantics over arbitrary histories (e.g. interfaces keyed by __name__) is not decided.',
     note='Trusted: CPython ast, tsa analyser; call graph = direct calls through resolved names plus run_tape dispatch to every registered handler.'),
  'C20': dict(
     level='other', ref='DESIGN.md 4 C20',
-    technique='table evaluation from the module body (dispatch totality over 0..255), effect-set extraction of the NOP handler, sibling cross-check of the one-byte operand across VM / compiler / decompiler / generated soft-fork handlers, coherence rule for add_opcode',
+    technique='table evaluation from the module body (dispatch totality over 0..255), effect-set extraction of the NOP handler, sibling cross-check of the one-byte operand across VM / compiler / decompiler / generated soft-fork handlers, coherence rule for add_opcode, dependency obligation that the decimal range the decompiler prints for the NOP operand is accepted by the NOP encoder',
     text='Decides the structural clauses of C20: the op and NOP tables partition all 256 byte values and run_tape falls back to the NOP table, NOP has exactly the effect set {read one signed byte, guard count >= 0, pop count items} and no failure condition beyond a negative count or too few items, every party (VM, compiler, decompiler, both generated soft-fork handlers) agrees on exactly one operand byte, and add_opcode / add_soft_fork keep the four tables and the parsing handlers coherent. Upgraded-vs-old VM verdict equivalence needs the semantics of the forked op and is not decided.',
     note='Trusted: CPython ast, tsa analyser (restricted constant evaluator for the module-level tables).'),
  'C01': dict(
